@@ -371,7 +371,11 @@ func runC12Unit(c *explore.Ctx) {
 	sinceProbe := 0
 	n := 0
 	for idx, cs := range cases {
-		if a.Chunks > 1 && idx%a.Chunks != a.Chunk {
+		if explore.ReplayOnly != nil {
+			if len(explore.ReplayOnly) == 0 || a.Entry+" "+cs.id != explore.ReplayOnly[0] {
+				continue
+			}
+		} else if a.Chunks > 1 && idx%a.Chunks != a.Chunk {
 			continue
 		}
 		if idx <= c.Spec.ResumeAfter {
